@@ -3,7 +3,8 @@ import re
 
 from .. import core
 
-IMPORTS = """From MV Require Import Model.LockCfg Proofs.LockCfgSound.
+IMPORTS = """From Coq Require Import String.
+From MV Require Import Model.LockCfg Model.BlockSpec Proofs.LockCfgSound.
 From MVgen Require Import LockProg.
 Open Scope N_scope.
 """
@@ -15,17 +16,26 @@ OBLIGATIONS = [
      "intros f Hf p Hp. apply balanced_sound; [|exact Hp]. "
      "assert (H : forallb (balanced_fn permissive) program = true) by (vm_compute; reflexivity). "
      "rewrite forallb_forall in H. apply H. exact Hf."),
+    # no blocking instruction (channel operation, sleep, network / transport I/O) on any path of any function while a mutex is held
+    ("C12_gen_no_blocking_under_lock",
+     "forall f, In f program -> existsb (String.eqb (fname f)) blocking_exempt = false -> "
+     "forall p, valid_from f 0 p = true -> exists s, run_path strict_blocking f p = Ok s",
+     "intros f Hf He p Hp. apply balanced_sound; [|exact Hp]. "
+     "assert (H : forallb (fun g => existsb (String.eqb (fname g)) blocking_exempt || balanced_fn strict_blocking g) program = true) by (vm_compute; reflexivity). "
+     "rewrite forallb_forall in H. specialize (H f Hf). rewrite He in H. exact H."),
     # translator self-check: every Lock/Unlock token of the sources was emitted; nothing was abstracted away with a note
     ("C12_gen_translator_complete",
      "n_lock_ops_emitted = n_lock_tokens_in_source /\\ n_notes = 0 /\\ (50 <=? n_functions_emitted) = true /\\ (40 <=? n_files) = true",
      "repeat split; vm_compute; reflexivity."),
 ]
 
-REPORT = """From MV Require Import Model.LockCfg.
+REPORT = """From MV Require Import Model.LockCfg Model.BlockSpec.
 From MVgen Require Import LockProg.
 Open Scope string_scope.
 Definition failing := Eval vm_compute in
-  map (fun f => (fname f, first_error permissive f)) (filter (fun f => negb (balanced_fn permissive f)) program).
+  map (fun f => (fname f, first_error permissive f)) (filter (fun f => negb (balanced_fn permissive f)) program) ++
+  map (fun f => (fname f, first_error strict_blocking f))
+      (filter (fun f => balanced_fn permissive f && negb (balanced_fn strict_blocking f) && negb (existsb (String.eqb (fname f)) blocking_exempt)) program).
 Print failing.
 """
 
@@ -41,7 +51,7 @@ def run_static(res, pid, gd, lp):
     failed = [(n, e) for n, ok, e in obl if not ok]
     res.coverage["discharged"] += len(obl) - len(failed)
     res.coverage["theorems"] += [n for n, _, _ in obl]
-    res.coverage["generated_obligations"] = {n: ok for n, ok, _ in obl}
+    res.coverage.setdefault("generated_obligations", {}).update({n: ok for n, ok, _ in obl})
     found = 0
     if failed:
         # SEARCH: which functions, which path
@@ -61,7 +71,9 @@ def run_static(res, pid, gd, lp):
             what = {"SelfDeadlock": "locks %s again while already holding it (Go mutexes are not reentrant: the goroutine blocks forever)",
                     "ReturnHolding": "returns while still holding %s (every later call that needs it blocks forever)",
                     "UnlockUnheld": "unlocks %s which it does not hold (runtime panic: unlock of unlocked mutex)",
-                    "WaitUnheld": "waits on a condition variable without holding %s"}.get(kind, kind + " %s") % lockname
+                    "WaitUnheld": "waits on a condition variable without holding %s",
+                    "BlockingHeld": "reaches a blocking operation (kind " + str(a) + ": 1 channel send, 2 channel receive, 3 select, 4 sleep, 5 WaitGroup.Wait, 6 network / transport I/O, 7 range over a channel) "
+                                    "while holding %s: every other user of that mutex, Close included, waits for as long as the peer pleases"}.get(kind, kind + " %s") % lockname
             found += 1
             res.violation("static:%s:%s:%s" % (name, kind, lockname),
                           "%s (%s): a path through the function %s" % (name, fn["pos"], what),
@@ -69,7 +81,7 @@ def run_static(res, pid, gd, lp):
                            "path_blocks": path, "path": steps, "theorem": "C12_gen_all_balanced (forallb balanced_fn program = true)",
                            "how": "bin/check C12 regenerates the CFG skeleton with harness/cmd/go2cfg and re-evaluates balanced_fn"})
     for n, e in failed:
-        if n == "C12_gen_all_balanced" and found:
+        if n in ("C12_gen_all_balanced", "C12_gen_no_blocking_under_lock") and found:
             continue
         res.violation("obligation:" + n, "generated obligation %s no longer checks against the CFG skeletons regenerated from /repo" % n,
                       {"theorem": n, "coqc": e, "translator": "harness/cmd/go2cfg"}, found_input=False)
